@@ -1,10 +1,14 @@
 package scen
 
 import (
+	"encoding/json"
+	"fmt"
 	"io"
 	"log"
 	"os"
 	"runtime"
+	"strings"
+	"sync"
 	"testing"
 	"testing/synctest"
 	"time"
@@ -41,4 +45,40 @@ func TestWorker(t *testing.T) {
 	synctest.Test(t, func(t *testing.T) {
 		explore.WorkerMain()
 	})
+}
+
+// TestConformance runs the conformance instances of every scenario free (no bubble, real
+// time, real sockets) and prints one CONF line per instance.
+func TestConformance(t *testing.T) {
+	if os.Getenv("VERIF_CONFORM") == "" {
+		t.Skip("conformance mode only")
+	}
+	log.SetOutput(io.Discard)
+	want := map[string]bool{}
+	for _, s := range strings.Split(os.Getenv("VERIF_CONFORM"), ",") {
+		want[s] = true
+	}
+	var mu sync.Mutex
+	var wg sync.WaitGroup
+	sem := make(chan struct{}, 8)
+	for _, name := range explore.Names() {
+		s := explore.Get(name)
+		if s.Conform == nil || !(want["all"] || want[name]) {
+			continue
+		}
+		for _, p := range s.Conform() {
+			wg.Add(1)
+			sem <- struct{}{}
+			go func() {
+				defer wg.Done()
+				defer func() { <-sem }()
+				rec := explore.RunFreeOne(s, p)
+				b, _ := json.Marshal(rec)
+				mu.Lock()
+				fmt.Printf("CONF %s\n", b)
+				mu.Unlock()
+			}()
+		}
+	}
+	wg.Wait()
 }
